@@ -1972,6 +1972,14 @@ def gen_bucket_shape_programs():
         ("good-after-odd", fr(ODD) + fr(B)),
         ("empty-file", b""),
         ("newline-only", b"\n"),
+        # a line whose checksum field is EMPTY, or a strict prefix of the right checksum, is garbage
+        ("empty-checksum-field", fr(A) + b"\n\t" + fr(B).split(b"\t", 1)[1]),
+        ("prefix-checksum-field", fr(A) + b"\n" + fr(B)[1:11] + b"\t" + fr(B).split(b"\t", 1)[1]),
+        ("fragment-from-its-tab", fr(A) + fr(T) + b"\n\t" + fr(A).split(b"\t", 1)[1]),
+        # more than 1 MiB of damage in the middle of a bucket (a zeroed extent, a run of garbage lines): the records
+        # after it count like any others
+        ("megabyte-of-garbage-lines", fr(A) + b"\n" + b"\n".join([b"garbage line %06d " % j + b"#" * 80 for j in range(11000)]) + fr(B)),
+        ("megabyte-of-nul", fr(A) + b"\n" + b"\x00" * (1100 * 1024) + fr(T)),
     ]
     progs = []
     bp = bucket_path(key.encode())
